@@ -197,6 +197,8 @@ fn menu(tier: Tier) -> Vec<Attack> {
         ("parent-in-same-slot", Box::new(|slot, sk| sign_block(slot, &[SliceSpec { parent: Some((Slot::new(slot), bh("same"))), txs: vec![], raw: None }], sk).shreds.iter().map(|a| a.to_vec()).collect())),
         ("parent-in-later-slot", Box::new(|slot, sk| sign_block(slot, &[SliceSpec { parent: Some((Slot::new(slot + 9), bh("later"))), txs: vec![], raw: None }], sk).shreds.iter().map(|a| a.to_vec()).collect())),
         ("parent-is-max-slot", Box::new(|slot, sk| sign_block(slot, &[SliceSpec { parent: Some((Slot::new(u64::MAX), bh("max"))), txs: vec![], raw: None }], sk).shreds.iter().map(|a| a.to_vec()).collect())),
+        ("handover-in-second-slice-to-later-slot", Box::new(|slot, sk| sign_block(slot, &[SliceSpec { parent: Some((Slot::new(slot - 1), bh("p"))), txs: vec![], raw: None }, SliceSpec { parent: Some((Slot::new(slot + 5), bh("later"))), txs: vec![vec![3; 9]], raw: None }], sk).shreds.iter().map(|a| a.to_vec()).collect())),
+        ("handover-in-second-slice-to-same-slot", Box::new(|slot, sk| sign_block(slot, &[SliceSpec { parent: Some((Slot::new(slot - 1), bh("p"))), txs: vec![], raw: None }, SliceSpec { parent: Some((Slot::new(slot), bh("same"))), txs: vec![], raw: None }], sk).shreds.iter().map(|a| a.to_vec()).collect())),
         ("first-slice-without-parent", Box::new(|slot, sk| sign_block(slot, &[SliceSpec { parent: None, txs: vec![vec![1; 10]], raw: None }], sk).shreds.iter().map(|a| a.to_vec()).collect())),
         ("two-parent-switches", Box::new(|slot, sk| {
             let p = |i: u64| Some((Slot::new(slot - 1 - i), bh(&format!("p{i}"))));
